@@ -153,17 +153,44 @@ class Ref:
                         raise RefError('extent/intent order disagree')
         return self._leq
 
+    BIG = 64    # above this many concepts covers are found by the size-ordered scan
+
     def upper_covers(self, i):
         """Concepts j > i with nothing strictly between (by search)."""
         leq = self.leq
         k = len(leq)
+        if k > self.BIG:
+            return self._covers_scan(i, up=True)
         ups = [j for j in range(k) if j != i and leq[i][j]]
         return [j for j in ups
                 if not any(z != i and z != j and leq[i][z] and leq[z][j] for z in ups)]
 
+    def _covers_scan(self, i, up):
+        """Covers of i for big lattices: scan the strict upper (lower) bounds by
+        increasing distance in extent size; j is a cover iff no cover found so far
+        lies between.  (If some z were strictly between i and j, a minimal such z
+        would be a cover of i, found earlier, with z <= j.)  Cross-checked against
+        the plain search in the self test."""
+        leq = self.leq
+        k = len(leq)
+        size = [len(c[0]) for c in self.concepts]
+        if up:
+            cands = sorted((j for j in range(k) if j != i and leq[i][j]), key=lambda j: size[j])
+        else:
+            cands = sorted((j for j in range(k) if j != i and leq[j][i]), key=lambda j: -size[j])
+        covers = []
+        for j in cands:
+            if up and not any(leq[c][j] for c in covers):
+                covers.append(j)
+            elif not up and not any(leq[j][c] for c in covers):
+                covers.append(j)
+        return sorted(covers)
+
     def lower_covers(self, i):
         leq = self.leq
         k = len(leq)
+        if k > self.BIG:
+            return self._covers_scan(i, up=False)
         downs = [j for j in range(k) if j != i and leq[j][i]]
         return [j for j in downs
                 if not any(z != i and z != j and leq[j][z] and leq[z][i] for z in downs)]
@@ -179,7 +206,10 @@ class Ref:
         leq = self.leq
         k = len(leq)
         ubs = [u for u in range(k) if all(leq[i][u] for i in idxs)]
-        least = [u for u in ubs if all(leq[u][v] for v in ubs)]
+        # the least one, if any, has the smallest extent: test only those
+        size = min(len(self.concepts[u][0]) for u in ubs) if ubs else None
+        least = [u for u in ubs if len(self.concepts[u][0]) == size
+                 and all(leq[u][v] for v in ubs)]
         if len(least) != 1:
             raise RefError('no unique join')
         return least[0]
@@ -188,7 +218,9 @@ class Ref:
         leq = self.leq
         k = len(leq)
         lbs = [l for l in range(k) if all(leq[l][i] for i in idxs)]
-        greatest = [l for l in lbs if all(leq[v][l] for v in lbs)]
+        size = max(len(self.concepts[l][0]) for l in lbs) if lbs else None
+        greatest = [l for l in lbs if len(self.concepts[l][0]) == size
+                    and all(leq[v][l] for v in lbs)]
         if len(greatest) != 1:
             raise RefError('no unique meet')
         return greatest[0]
